@@ -35,6 +35,7 @@ def make_family(log):
         I.Method('BadRet', '', 'i'), I.Method('Shared', 's', 's'),
         I.Method('Unbound', '', ''),
         # a single container return value whose value has 0 / 1 elements
+        I.Method('FailOdd', '', ''), I.Method('FailLong', '', ''),
         I.Method('List1', 'as', 'as'), I.Method('Tup1', '', '(i)'),
         I.Method('Empty', '', 'as'), I.Method('Dict1', '', 'a{si}'),
         noRegister=True)
@@ -128,6 +129,14 @@ def make_family(log):
             e.dbusErrorName = 'not a name'
             raise e
 
+        def dbus_FailOdd(self):
+            self._l('FailOdd')
+            raise type('Fehler\u00df-1', (Exception,), {})('odd text')
+
+        def dbus_FailLong(self):
+            self._l('FailLong')
+            raise type('E' * 240, (Exception,), {})('long text')
+
         def dbus_BadRet(self):
             self._l('BadRet')
             return 'not-an-int'
@@ -179,12 +188,13 @@ MEMBERS = {
     'BadRet': ('', []), 'Shared': ('s', ['sh']), 'Unbound': ('', []),
     'Only2': ('', []), 'More': ('', []), 'Extra': ('', []), 'Nope': ('', []),
     'List1': ('as', [['solo']]), 'Tup1': ('', []), 'Empty': ('', []),
-    'Dict1': ('', []),
+    'Dict1': ('', []), 'FailOdd': ('', []), 'FailLong': ('', []),
 }
 IFACE_OF = {m: 'org.ex.I1' for m in
             ('Echo', 'Pair', 'Nothing', 'Struct', 'List', 'Var', 'Two', 'Who',
              'WhoArg', 'Defer', 'Fail', 'FailNamed', 'FailBadName', 'BadRet',
-             'Unbound', 'List1', 'Tup1', 'Empty', 'Dict1')}
+             'Unbound', 'List1', 'Tup1', 'Empty', 'Dict1', 'FailOdd',
+             'FailLong')}
 IFACE_OF.update({'Only2': 'org.ex.I2', 'More': 'org.ex.I2',
                  'Extra': 'org.ex.I3'})
 PATHS = {'/base': 'base', '/base/derived': 'derived', '/nope': None,
@@ -315,6 +325,13 @@ def _outcome(obj, iface, member, arg):
     if member == 'FailBadName':
         return ((name, 'FailBadName'), ('err', 'org.txdbus.InvalidErrorName',
                                         'badname text'))
+    if member == 'FailOdd':
+        # org.txdbus.PythonException.<Class> is not a valid name here
+        return ((name, 'FailOdd'), ('err', 'org.txdbus.InvalidErrorName',
+                                    'odd text'))
+    if member == 'FailLong':
+        return ((name, 'FailLong'), ('err', 'org.txdbus.InvalidErrorName',
+                                     'long text'))
     if member == 'BadRet':
         return ((name, 'BadRet'), ('err', None, None))
     if member == 'Shared':
